@@ -42,7 +42,7 @@ def run_one(m, tier):
         for prop in m['props']:
             r = subprocess.run([os.path.join(HERE, 'check'), prop, '--tier', tier], env=env, capture_output=True, text=True)
             out = '\n'.join(l for l in (r.stdout + r.stderr).splitlines() if 'WARNING' not in l)
-            outs.append("[%s exit=%d]\n%s" % (prop, r.returncode, out[-12000:]))
+            outs.append("[%s exit=%d]\n%s" % (prop, r.returncode, out[:6000] + "\n...\n" + out[-8000:] if len(out) > 14000 else out))
             if r.returncode == 1 and 'VIOLATION' in out:
                 verdict = 'caught'
                 exp = m.get('expect')
